@@ -17,7 +17,8 @@ RULE = (
     "FaultTableModel judged at every call; non-trivial = at least one fault callback fired; distinct = signature"
 )
 ASSUMPTIONS = [
-    "'invoked once' = at most one callback per (API call, condition)",
+    "'invoked once' = at most one callback per (API call, condition), and an ignored limit fault is declared again only "
+    "after a further full timer interval (one declaration per expiry)",
     "a fault during an EOF (cancel) / Finished (cancel) exchange leads to abandonment whatever the table says (CFDP 4.11.2.2.3)",
     "the suspension handler code is unimplemented in cfdp-py and not generated; Cancel.request does not go through the table",
     "ignore: the condition never appears in an EOF / Finished PDU or indication of that handler later in the run",
@@ -50,6 +51,16 @@ class FaultTableMonitor(Monitor):
         self.abandoned: set = set()
         self.waiting: dict = {}
         self.callbacks = 0
+        self.last_cb: dict = {}
+        c = w.cfg
+        # the timer interval behind each limit condition of each handler (ms)
+        self.interval = {
+            (("a", "src"), int(ConditionCode.POSITIVE_ACK_LIMIT_REACHED)): c.ack_s * 1000,
+            (("b", "dst"), int(ConditionCode.POSITIVE_ACK_LIMIT_REACHED)): c.ack_s * 1000,
+            (("b", "dst"), int(ConditionCode.NAK_LIMIT_REACHED)): c.nak_s * 1000,
+            (("a", "src"), int(ConditionCode.CHECK_LIMIT_REACHED)): c.check_s_send * 1000,
+            (("b", "dst"), int(ConditionCode.CHECK_LIMIT_REACHED)): c.check_s_recv * 1000,
+        }
 
     def on_call(self, w, rec) -> None:
         key = (rec.ent, rec.hk)
@@ -111,6 +122,14 @@ class FaultTableMonitor(Monitor):
                 continue
             if kind == "ignore":
                 self.ignored.add((key, cond))
+                # "invoked once": a limit fault is declared by a timer expiry; with the ignore handler the transaction
+                # continues, so the next declaration needs a further expiry, i.e. a full timer interval
+                iv = self.interval.get((key, cond))
+                last = self.last_cb.get((key, cond, ftid))
+                if iv is not None and last is not None and w.clock.t - last < iv - 2:
+                    w.violate("C14.fault_redeclared", f"{rec.ent}.{rec.hk} cond={cond} ignored fault declared again without a further timer expiry",
+                              f"{w.clock.t - last} ms after the previous declaration, interval {iv} ms")
+                self.last_cb[(key, cond, ftid)] = w.clock.t
             elif kind == "cancel":
                 if rec.hk == "src":
                     if not eofs or eofs[-1].info[1] != cond:
